@@ -28,10 +28,15 @@ fn fits<VM: VMBinding>(s: &mut Src) {
     let cell = sizes[bin];
     chk!(s, "the chosen size class holds the padded request", cell >= padded);
     chk!(s, "the chosen size class is the smallest that holds the padded request", bin == 1 || sizes[bin - 1] < padded);
-    // the object as the allocator places it inside a cell: cells are word-aligned
+    // the object as the allocator places it inside a cell.  Cells are `block start + i * cell`
+    // with a 64 KiB-aligned block start, so they are word-aligned, and aligned to the VM's minimum
+    // alignment (which `get_maximum_aligned_size` takes as known) iff the cell size is a multiple
+    // of it -- that is an obligation on the chosen class, checked here.
+    chk!(s, "the cell size is a multiple of the VM's minimum alignment (cells stay MIN_ALIGNMENT-aligned)", cell & (VM::MIN_ALIGNMENT - 1) == 0);
+    let cell_align = if VM::MIN_ALIGNMENT > 8 { VM::MIN_ALIGNMENT } else { 8 };
     let cell_addr = s.any_usize();
     let offset = s.any_usize();
-    s.assume(cell_addr & 7 == 0 && cell_addr >= 4096 && cell_addr < (1usize << 47));
+    s.assume(cell_addr & (cell_align - 1) == 0 && cell_addr >= 4096 && cell_addr < (1usize << 47));
     s.assume(offset & (VM::MIN_ALIGNMENT - 1) == 0 && offset < (1usize << 47));
     let start = align_allocation_no_fill::<VM>(unsafe { Address::from_usize(cell_addr) }, align, offset).as_usize();
     chk!(s, "the aligned object lies inside its cell", start >= cell_addr && start + size <= cell_addr + cell);
@@ -46,6 +51,12 @@ fn fits<VM: VMBinding>(s: &mut Src) {
 }
 pub fn c35_fits_vmb(s: &mut Src) {
     fits::<VmB>(s)
+}
+pub fn c35_fits_vmc(s: &mut Src) {
+    fits::<VmC>(s)
+}
+pub fn c35_fits_vmd(s: &mut Src) {
+    fits::<VmD>(s)
 }
 pub fn c35_fits_vma(s: &mut Src) {
     let sizes = bin_sizes();
@@ -79,5 +90,7 @@ pub fn c35_table(s: &mut Src) {
 harnesses! {
     #[kani::unwind(52)] c35_fits_vma; // timeout=600
     #[kani::unwind(52)] c35_fits_vmb; // timeout=600
+    #[kani::unwind(52)] c35_fits_vmc; // tier=thorough timeout=1200
+    #[kani::unwind(52)] c35_fits_vmd; // tier=thorough timeout=1200
     #[kani::unwind(52)] c35_table; // timeout=600
 }
